@@ -1056,6 +1056,13 @@ theorem step_originInv (s : State) (op : Op) (h : OriginInv s) : OriginInv (step
     split
     · exact wakeConn_inv (setConn_inv h c (fun k => { k with isOpen := false }) (fun _ => rfl)) c
     · exact h
+  | connFail c =>
+    simp only [step]
+    split
+    · split
+      · exact wakeConn_inv (setConn_inv h c (fun k => { k with isOpen := false }) (fun _ => rfl)) c
+      · exact h
+    · exact h
   | run => exact runAll_inv _ s h
   | tick ms => exact h.congr rfl rfl rfl rfl rfl rfl rfl rfl rfl rfl
   | mark => exact h
@@ -1275,6 +1282,13 @@ theorem step_coSame (s : State) (op : Op) (h : OriginInv s) : CoSame s.co (step 
     simp only [step]
     split
     · exact CoSame.of_eq (setConn_co s c _)
+    · exact CoSame.refl _
+  | connFail c =>
+    simp only [step]
+    split
+    · split
+      · exact CoSame.of_eq (setConn_co s c _)
+      · exact CoSame.refl _
     · exact CoSame.refl _
   | run => exact runAll_coSame _ s h
   | tick ms => exact CoSame.refl _
